@@ -15,10 +15,12 @@ const c15Long = "very/long/category/path/of/a/food/x" // 35 runes: wider than th
 const c15LongEl = "элемент с длинным именем 25"       // > 20 runes, multi-byte
 
 var c15Book = absBook{
+	{"w/empty", nil},
+	{"w/tea", []absIng{{"w/empty", 1}}},
 	{"r1", []absIng{{"cal", 2}, {"fat", -0.5}}},
 	{c15Long, []absIng{{c15LongEl, 1.5}, {"cal", -1}}},
 }
-var c15Foods = []string{"r1", c15Long, "ел 2", "u"}
+var c15Foods = []string{"r1", c15Long, "ел 2", "u", "w/tea"}
 var c15Qty = []float64{1, -2, 0}
 
 var colTokRe = regexp.MustCompile("(\x1b\\[3[12]m)?( *-?[0-9]+\\.[0-9]{2})(\x1b\\[0m)?")
